@@ -822,6 +822,14 @@ class Interp(object):
         v = self.eval(e.value, fr) if e.value is not None else VNone
         if fr.yields is None:
             raise Undecided('yield outside generator frame')
+        if '$yrow' in fr.env:
+            # ghost multiset of yielded edge-list rows (u, v, t)
+            if not (v.kind == 'rowstr' and len(v.fields) == 3 and v.fields[0].kind == 'node' and v.fields[1].kind == 'node' and v.fields[2].kind == 'int'):
+                raise Undecided('yield of a value that is not a row u<delim>v<delim>t')
+            a, b, q = v.fields[0].z, v.fields[1].z, v.fields[2].z
+            y = fr.env['$yrow'].z
+            fr.env['$yrow'] = VOpaque(z3.Store(y, a, z3.Store(y[a], b, z3.Store(y[a][b], q, y[a][b][q] + 1))), 'ghost')
+            return VNone
         if '$ypair' in fr.env:
             # ghost multiset of yielded interaction tuples (a, b, data)
             if not (v.kind == 'tuple' and len(v.items) == 3 and v.items[0].kind == 'node' and v.items[1].kind == 'node'):
@@ -1389,6 +1397,8 @@ class Interp(object):
         if k == 'module':
             f = self.engine.module_attr(recv.name, name, fr, self)
             return self.call_value(f, argv, kwv, fr, node)
+        if k in ('str', 'opaque') and name == 'join' and len(argv) == 1 and argv[0].kind == 'mapped' and argv[0].fn == 'make_str':
+            return VRowStr(argv[0].items)
         if k == 'super' and name == '__init__':
             from .engine import _super_init
             return _super_init(self, recv, argv, kwv)
